@@ -16,5 +16,6 @@ func init() {
 	register(C07{})
 	register(C17{})
 	register(C18{})
+	register(C19{})
 	register(C20{})
 }
